@@ -141,13 +141,6 @@ def setup_pipeline(sx, st, params):
     st.ghost["the_event"] = params["event"]
 
 
-def _ghost_havoc_for_loops(sx, body, st):
-    for g in ("called", "called_args_ok"):
-        if g in st.ghost:
-            st.ghost[g] = sx.fresh(st.ghost[g].ty, "g_" + g, st)
-
-
-REG.ghost_loop_havoc = _ghost_havoc_for_loops
 
 REG.unit(Unit(
     P, "get_validator.validate",
@@ -163,4 +156,4 @@ REG.unit(Unit(
     ])},
     props=["C16", "C03"], setup=setup_pipeline,
     canaries=[("skips-one", "len(ghost('called')) < len(validators)")],
-))
+)).ghost_const = ("the_event", "clock")
